@@ -41,6 +41,17 @@ def _sign(cname, draws, key, z):
         return (r, s, len(draws) - len(used))
 
 
+def _sign_verify(cname, draws, key, z):
+    """sign with the scripted draws, then verify with the library's own verifier under key*G (same unreduced digest)"""
+    import curvectx
+    import bits.ecmath as ec
+    cv = CURVES[cname]
+    with _ctx(cname), curvectx.scripted_randbelow(draws):
+        r, s = ec.sign(key, z)
+        Q = ec.point_scalar_mul(key, cv["G"])
+        return ec.verify(r, s, Q, z)
+
+
 def _verify(cname, r, s, Q, z):
     import bits.ecmath as ec
     with _ctx(cname):
@@ -71,7 +82,7 @@ def _sig_verify(cname, sg, pk, msg, pre):
         return bits.sig_verify(sg, pk, msg, msg_preimage=pre) == "OK"
 
 
-IMPL = {"sign": _sign, "verify": _verify, "der_enc": _der_enc, "der_dec": _der_dec, "sig": _sig, "sig_verify": _sig_verify}
+IMPL = {"sign_verify": _sign_verify, "sign": _sign, "verify": _verify, "der_enc": _der_enc, "der_dec": _der_dec, "sig": _sig, "sig_verify": _sig_verify}
 
 
 def model_call(c):
@@ -79,6 +90,9 @@ def model_call(c):
     if op == "sign":
         cv = CURVES[a[0]]
         return "c01_sign_with", [cv["p"], cv["a"], cv["n"], cv["G"], a[1], a[2], a[3]]
+    if op == "sign_verify":
+        cv = CURVES[a[0]]
+        return "c01_sign_then_verify", [cv["p"], cv["a"], cv["b"], cv["n"], cv["G"], a[1], a[2], a[3]]
     if op == "verify":
         cv = CURVES[a[0]]
         return "c01_verify", [cv["p"], cv["a"], cv["b"], cv["n"], cv["G"], a[1], a[2], a[3], a[4]]
@@ -158,7 +172,7 @@ def sec1(Q, compressed):
 def prop_oracle(c):
     """literal statement of C01 on the implementation, for the inputs of this case"""
     op, a = c["op"], c["args"]
-    if op == "sign":
+    if op in ("sign", "sign_verify"):
         cname, draws, key, z = a
         cv = CURVES[cname]
         n = cv["n"]
@@ -271,6 +285,9 @@ def gen_cases(rng, tier):
         out.append(case("secp-sign-boundary", "sign", "secp", d, k, z))
     for _ in range(6 if not T else 120):
         out.append(case("secp-sign-rand", "sign", "secp", [rng.randrange(0, N)], rng.randrange(1, N), rng.randrange(0, 2 ** 256)))
+    # sign -> verify with the library's own verifier: every digest class incl. z >= n (330 ms each)
+    for z in [0, 1, N - 1, N, N + 1, 2 ** 256 - 1] + ([rng.randrange(N, 2 ** 256) for _ in range(20)] if T else []):
+        out.append(case("secp-sign-verify-digest-class", "sign_verify", "secp", [rng.randrange(1, N)], rng.randrange(1, N), z))
     # digests solved so that s hits the negation boundary exactly
     for st in [1, half, half + 1, N - 1] + ([2, half - 1, half + 2, N - 2] if T else []):
         d, k = rng.randrange(1, N), rng.randrange(1, N)
@@ -322,6 +339,7 @@ def gen_cases(rng, tier):
                 ks = list(range(1, n)) if (T and cname == "c43") else rng.sample(range(1, n), 4 if not T else 8)
                 for k in ks:
                     out.append(case(cname + "-sign-all", "sign", cname, [0, k, (k * 7 + 3) % n, 1, 2, 3], d, z))
+                out.append(case(cname + "-sign-verify", "sign_verify", cname, [ks[0], (ks[0] * 5 + 1) % n, 1, 2, 3], d, z))
         for f in FLAGS:
             for pre in (False, True):
                 for _ in range(3 if not T else 12):
